@@ -7,13 +7,14 @@
   source order with every field name and type constructor as written, `Description = L.render` verbatim, and each
   member documented by `docOf` of the gap in front of it — the block of whole-line comments directly above the member.
 
-  `parse_render_partial` proves: for every layouted description inside the grammar and inside the three layout
+  `parse_render_partial` proves: for every layouted description inside the grammar and inside the two layout
   guards below, the parser model returns exactly `L.tree`. The statement without the guards (`ParseRenderFull`) is
   FALSE for idl.go as it is; `parse_render_full_fails_*` exhibit the witnesses (the first is the known finding of
   this property). The guards (all decidable, part of `LIdl.fits`):
     (1) every member starts on a new line: the gap in front of it contains a line break;
-    (2) the type of an error stands behind spaces/tabs only (idl.go reads it with advanceOnLine);
-    (3) no line break between `interface` and the interface name (idl.go takes IDL.Doc behind that gap).
+    (2) the type of an error stands behind spaces/tabs only (idl.go reads it with advanceOnLine).
+  (A third guard of an earlier version — no line break between `interface` and the interface name — is gone since
+  /repo b98cbe2 takes IDL.Doc before skipping that gap; `interface_doc_independent_of_layout_behind_keyword`.)
   Proof: VarlinkProofs/Lemmas/IdlRender.lean — forward lemmas per reader ("if the input in front of the cursor is the
   rendering of x followed by a token boundary, the reader returns x and stops behind it"), by induction on gaps,
   on the layouted type (mutually with field lists) and on the member list; crashes are excluded by C09's totality lemma.
@@ -40,7 +41,7 @@ theorem source_literals :
        "no methods defined"] := by
   decide
 
-/-- **Parse what was rendered** (partial: inside the three layout guards of `LIdl.fits`): the description is
+/-- **Parse what was rendered** (partial: inside the two layout guards of `LIdl.fits`): the description is
     accepted and the tree is exactly the one the text denotes — interface name, every member in source order, every
     field name and type constructor nested as written, the documentation of each member = the comment block above
     it, the interface documentation = the comment block at the start, the description retained verbatim. -/
@@ -129,7 +130,7 @@ theorem layout_independent (L1 L2 : LIdl) (h1 : L1.fits = true) (h2 : L2.fits = 
 
 /-! ### the full statement, and why it is only "partial" -/
 
-/-- the grammar alone: `LIdl.fits` without the three layout guards -/
+/-- the grammar alone: `LIdl.fits` without the two layout guards -/
 def fitsGrammar (L : LIdl) : Bool :=
   L.g0.wf && L.ig1.wf && !L.ig1.isEmpty && isInterfaceNameB L.name
     && L.members.all (fun p => p.1.wf && (match p.2 with
@@ -156,16 +157,20 @@ theorem parse_render_full_fails_error_type_on_next_line : ¬ ParseRenderFull := 
   rw [h1] at h2
   cases h2
 
-/-- `# d⏎interface⏎a.b …`: a line break behind `interface` loses the interface documentation -/
+/-- **Interface documentation**: `IDL.Doc` is the comment block at the start of the file, whatever layout (line
+    breaks, comments) stands between `interface` and the interface name. -/
+theorem interface_doc_independent_of_layout_behind_keyword (L : LIdl) (h : L.fits = true) :
+    ∃ t, New L.render = .ok t ∧ t.doc = docOfStart L.g0 := ⟨L.tree, New_render L h, rfl⟩
+
+/-- `# d⏎interface⏎# c⏎a.b …` (rejected variant of the pinned tree: Doc was "c") -/
 def witnessInterfaceDoc : LIdl :=
-  { g0 := [.comment (str " d")], ig1 := [.nl], name := str "a.b",
+  { g0 := [.comment (str " d")], ig1 := [.nl, .comment (str " c")], name := str "a.b",
     members := [([.nl], .method [.sp] (str "F") [] (.unit []) [] [] (.unit []))],
     gEnd := [], finalComment := none }
 
-theorem interface_doc_depends_on_layout_behind_keyword :
-    (match New witnessInterfaceDoc.render with | .ok t => t.doc | _ => [1]) = [] ∧
-    witnessInterfaceDoc.tree.doc = str "d" := by
-  constructor <;> decide +kernel
+theorem interface_doc_witness :
+    (match New witnessInterfaceDoc.render with | .ok t => t.doc | _ => [1]) = str "d" := by
+  decide +kernel
 
 /-- `error E method F()->()`: a member on the line of an error without type is taken for the error's type -/
 def witnessMemberBehindBareError : LIdl :=
@@ -182,7 +187,8 @@ theorem member_behind_bare_error_rejected :
 /-! ### non-vacuity: a description with every constructor, comments in every kind of gap, CRLF, a last comment -/
 
 def sample : LIdl :=
-  { g0 := [.comment (str " about the interface"), .cr, .nl], ig1 := [.tab], name := str "org.example-x.y9",
+  { g0 := [.comment (str " about the interface\r"), .tab, .comment (str "second line")],
+    ig1 := [.tab, .comment (str " not doc"), .cr, .nl, .sp], name := str "org.example-x.y9",
     members := [
       ([.comment (str "trailing"), .nl, .sp, .comment (str " doc one"), .tab, .comment (str "two\r")],
         .alias [.sp, .comment (str ""), .tab] (str "T") [.nl]
@@ -194,9 +200,10 @@ def sample : LIdl :=
     gEnd := [.nl, .sp], finalComment := some (str " bye") }
 
 example : sample.fits = true := by decide +kernel
-example : ∃ t, New sample.render = .ok t ∧ t.members.map Member.doc =
-    [str "doc one\ntwo", [], [], str "the error"] := by
-  refine ⟨sample.tree, parse_render_partial sample (by decide +kernel), ?_⟩
-  decide +kernel
+example : ∃ t, New sample.render = .ok t ∧ t.doc = str "about the interface\nsecond line" ∧
+    t.members.map Member.doc = [str "doc one\ntwo", [], [], str "the error"] := by
+  refine ⟨sample.tree, parse_render_partial sample (by decide +kernel), ?_, ?_⟩ <;> decide +kernel
+/-- the same by running the model on the rendered text in the kernel (no use of the theorem) -/
+example : (match New sample.render with | .ok t => t.members.length | _ => 0) = 4 := by decide +kernel
 
 end Varlink.C05
